@@ -45,14 +45,51 @@ Proof.
   - rewrite Em. reflexivity.
 Qed.
 
-(* ------------------------------------------------------------------------- the specification respects sb_sim *)
-Lemma sinst_body_sim : forall F R R' b b',
-  sb_sim b b' -> (forall x, sfield F R x = sfield F R' x) -> sinst_body F R b = sinst_body F R' b'.
+(* ------------------------------------------------------------------------- aliases *)
+Lemma alias_tm_ext : forall t look look',
+  (forall x, In x (vars t) -> look x = look' x) -> alias_tm look t = alias_tm look' t.
 Proof.
-  intros F R R' b b' H HR. induction H as [sc sc' s Hs|l l' r r' Hl IHl Hr IHr]; cbn [sinst_body].
-  - destruct s as [t|l]; [reflexivity|]. destruct (nodup_names (map fst l)); [|reflexivity].
-    f_equal. f_equal. f_equal. apply subst_ilit_ext. intros x Hx. unfold outer_S. rewrite (Hs x Hx), HR. reflexivity.
+  induction t as [z|x|o|a IHa b IHb|a IHa b IHb|a _ b _ t IHt e IHe]; intros look look' H; cbn [alias_tm]; try reflexivity.
+  cbn [vars] in H.
+  rewrite (eval_tm_ext a look look'), (eval_tm_ext b look look'), (IHt look look'), (IHe look look'); [reflexivity| | | |];
+    intros x Hx; apply H; rewrite !in_app_iff; tauto.
+Qed.
+
+Lemma alias_tm_In : forall t look x, alias_tm look t = Some x -> In x (vars t).
+Proof.
+  induction t as [z|y|o|a IHa b IHb|a IHa b IHb|a _ b _ t IHt e IHe]; intros look x H; cbn [alias_tm vars] in *; try discriminate.
+  - inversion H; subst. left. reflexivity.
+  - destruct (arith2 _ (eval_tm look a) (eval_tm look b)) as [[|[| |]|]| | | | |]; try discriminate.
+    + apply IHe in H. rewrite !in_app_iff. tauto.
+    + apply IHt in H. rewrite !in_app_iff. tauto.
+Qed.
+
+(* ------------------------------------------------------------------------- the specification respects sb_sim *)
+Lemma sinst_body_sim : forall F R R' al al' b b',
+  sb_sim b b' -> (forall x, sfield F R x = sfield F R' x) -> (forall x, al x = al' x) ->
+  sinst_body F R al b = sinst_body F R' al' b'.
+Proof.
+  intros F R R' al al' b b' H HR Hal. induction H as [sc sc' s Hs|l l' r r' Hl IHl Hr IHr]; cbn [sinst_body].
+  - destruct s as [t|l].
+    + assert (Ha : alias_tm (fun x => if mem x sc then var_out (sfield F R x) else Err UnboundId) t
+                   = alias_tm (fun x => if mem x sc' then var_out (sfield F R' x) else Err UnboundId) t).
+      { apply alias_tm_ext. intros x Hx. rewrite (Hs x Hx), HR. reflexivity. }
+      rewrite Ha.
+      destruct (alias_tm (fun x => if mem x sc' then var_out (sfield F R' x) else Err UnboundId) t) as [x|] eqn:Ea; [|reflexivity].
+      rewrite (Hs x (alias_tm_In _ _ _ Ea)), Hal. reflexivity.
+    + destruct (nodup_names (map fst l)); [|reflexivity].
+      f_equal. f_equal. f_equal. apply subst_ilit_ext. intros x Hx. unfold outer_S. rewrite (Hs x Hx), HR. reflexivity.
   - rewrite IHl, IHr. reflexivity.
+Qed.
+
+Lemma sinst_at_sim : forall fuel F R R' k, srec_sim R R' -> sinst_at fuel F R k = sinst_at fuel F R' k.
+Proof.
+  induction fuel as [|n IH]; intros F R R' k Hsim; cbn [sinst_at]; [reflexivity|].
+  pose proof (Hsim k) as Hk. rewrite (sfield_sim R R' Hsim F k).
+  destruct (slookup k R) as [f|]; destruct (slookup k R') as [f'|]; cbn [opt_sim] in Hk; try contradiction; [|reflexivity].
+  destruct (sfield F R' k); try reflexivity.
+  destruct Hk as (_ & Hv & _). destruct (sval f) as [b|]; destruct (sval f') as [b'|]; cbn [osb_sim] in Hv; try contradiction; [|reflexivity].
+  apply sinst_body_sim; [exact Hv | intros x; apply sfield_sim; exact Hsim | intros x; apply IH; exact Hsim].
 Qed.
 
 (* ------------------------------------------------------------------------- instantiation *)
@@ -69,38 +106,46 @@ Proof.
   apply mem_In in E. apply H in E. apply mem_In in E. rewrite E. reflexivity.
 Qed.
 
-Lemma inst_body_ok : forall c F st0 ro,
+Lemma inst_body_ok : forall c F st0 ro ai asp,
   faithful false c -> coherent false st0 ro ->
+  (forall st x, extends st0 st -> inst_rel st (ai st x) (asp x)) ->
   forall b filt st, extends st0 st -> wf_body filt b ->
-  inst_rel st (inst_body c F st0 ro filt st b) (sinst_body F (abs st0 ro) (abs_body filt b)).
+  inst_rel st (inst_body c F st0 ro ai filt st b) (sinst_body F (abs st0 ro) asp (abs_body filt b)).
 Proof.
-  intros c F st0 ro Hc Hco. induction b as [s|b1 IH1 d1 b2 IH2 d2|tid]; intros filt st Hext Hwf; cbn [inst_body abs_body sinst_body].
-  - destruct s as [t|l]; [exact I|]. destruct (nodup_names (map fst l)) eqn:En; [|exact I].
-    assert (Hsub : subst_ilit (outer_I F st0 ro filt) l = subst_ilit (outer_S F (abs st0 ro) filt) l).
-    { apply subst_ilit_ext. intros x _. unfold outer_I, outer_S. rewrite (override_refines false st0 ro Hco). reflexivity. }
-    rewrite Hsub.
-    destruct (eval_literal_ok false c st (lift_lit (subst_ilit (outer_S F (abs st0 ro) filt) l)) Hc)
-      as (st' & He & Hext' & Hco' & Hsim).
-    + rewrite lit_names_lift_subst. apply nodup_names_NoDup. exact En.
-    + intros H. discriminate.
-    + rewrite He. cbn [inst_rel]. split; [exact Hext'|]. split; assumption.
+  intros c F st0 ro ai asp Hc Hco Hal. induction b as [s|b1 IH1 d1 b2 IH2 d2|tid]; intros filt st Hext Hwf; cbn [inst_body abs_body sinst_body].
+  - destruct s as [t|l].
+    + assert (Ha : alias_tm (fun x => if mem x filt then var_out (ifield F st0 ro x) else Err UnboundId) t
+                   = alias_tm (fun x => if mem x filt then var_out (sfield F (abs st0 ro) x) else Err UnboundId) t).
+      { apply alias_tm_ext. intros x _. rewrite (override_refines false st0 ro Hco). reflexivity. }
+      rewrite Ha.
+      destruct (alias_tm (fun x => if mem x filt then var_out (sfield F (abs st0 ro) x) else Err UnboundId) t) as [x|]; [|exact I].
+      destruct (mem x filt); [|exact I]. apply Hal. exact Hext.
+    + destruct (nodup_names (map fst l)) eqn:En; [|exact I].
+      assert (Hsub : subst_ilit (outer_I F st0 ro filt) l = subst_ilit (outer_S F (abs st0 ro) filt) l).
+      { apply subst_ilit_ext. intros x _. unfold outer_I, outer_S. rewrite (override_refines false st0 ro Hco). reflexivity. }
+      rewrite Hsub.
+      destruct (eval_literal_ok false c st (lift_lit (subst_ilit (outer_S F (abs st0 ro) filt) l)) Hc)
+        as (st' & He & Hext' & Hco' & Hsim).
+      * rewrite lit_names_lift_subst. apply nodup_names_NoDup. exact En.
+      * intros H. discriminate.
+      * rewrite He. cbn [inst_rel]. split; [exact Hext'|]. split; assumption.
   - cbn [wf_body] in Hwf. destruct Hwf as (Hi1 & Hi2 & Hw1 & Hw2).
     set (f1 := filter (fun x => mem x filt) d1). set (f2 := filter (fun x => mem x filt) d2).
-    assert (Hs1 : sinst_body F (abs st0 ro) (abs_body d1 b1) = sinst_body F (abs st0 ro) (abs_body f1 b1)).
-    { apply sinst_body_sim; [|reflexivity]. apply abs_body_sim. intros x. unfold f1. symmetry. apply mem_filter_incl. exact Hi1. }
-    assert (Hs2 : sinst_body F (abs st0 ro) (abs_body d2 b2) = sinst_body F (abs st0 ro) (abs_body f2 b2)).
-    { apply sinst_body_sim; [|reflexivity]. apply abs_body_sim. intros x. unfold f2. symmetry. apply mem_filter_incl. exact Hi2. }
+    assert (Hs1 : sinst_body F (abs st0 ro) asp (abs_body d1 b1) = sinst_body F (abs st0 ro) asp (abs_body f1 b1)).
+    { apply sinst_body_sim; [|reflexivity|reflexivity]. apply abs_body_sim. intros x. unfold f1. symmetry. apply mem_filter_incl. exact Hi1. }
+    assert (Hs2 : sinst_body F (abs st0 ro) asp (abs_body d2 b2) = sinst_body F (abs st0 ro) asp (abs_body f2 b2)).
+    { apply sinst_body_sim; [|reflexivity|reflexivity]. apply abs_body_sim. intros x. unfold f2. symmetry. apply mem_filter_incl. exact Hi2. }
     rewrite Hs1, Hs2.
     assert (Hw1' : wf_body f1 b1).
     { eapply wf_body_mono; [|exact Hw1]. intros x Hx. unfold f1. apply filter_In. split; [exact Hx | apply mem_In, Hi1, Hx]. }
     assert (Hw2' : wf_body f2 b2).
     { eapply wf_body_mono; [|exact Hw2]. intros x Hx. unfold f2. apply filter_In. split; [exact Hx | apply mem_In, Hi2, Hx]. }
     pose proof (IH1 f1 st Hext Hw1') as H1.
-    destruct (inst_body c F st0 ro f1 st b1) as [[st1 r1]|]; destruct (sinst_body F (abs st0 ro) (abs_body f1 b1)) as [R1|];
+    destruct (inst_body c F st0 ro ai f1 st b1) as [[st1 r1]|]; destruct (sinst_body F (abs st0 ro) asp (abs_body f1 b1)) as [R1|];
       cbn [inst_rel] in H1; try contradiction.
     + destruct H1 as (He1 & Hco1 & Hsim1).
       pose proof (IH2 f2 st1 (extends_trans _ _ _ Hext He1) Hw2') as H2.
-      destruct (inst_body c F st0 ro f2 st1 b2) as [[st2 r2]|]; destruct (sinst_body F (abs st0 ro) (abs_body f2 b2)) as [R2|];
+      destruct (inst_body c F st0 ro ai f2 st1 b2) as [[st2 r2]|]; destruct (sinst_body F (abs st0 ro) asp (abs_body f2 b2)) as [R2|];
         cbn [inst_rel] in H2; try contradiction; [|exact I].
       destruct H2 as (He2 & Hco2 & Hsim2).
       destruct (extends_coherent false st1 st2 r1 He2 Hco1) as [Hco1' Habs1].
@@ -109,26 +154,37 @@ Proof.
       * eapply extends_trans; [exact He1|]. eapply extends_trans; eassumption.
       * exact Hco3.
       * eapply srec_sim_trans; [exact Hsim3|]. apply smerge_sim; [rewrite Habs1; exact Hsim1 | exact Hsim2].
-    + destruct (sinst_body F (abs st0 ro) (abs_body f2 b2)); exact I.
+    + destruct (sinst_body F (abs st0 ro) asp (abs_body f2 b2)); exact I.
   - destruct Hwf.
 Qed.
 
-(* reading into field [k] of a coherent record instance *)
-Theorem inst_ok : forall c F st ro k,
-  faithful false c -> coherent false st ro ->
-  inst_rel st (inst c F st ro k) (sinst F (abs st ro) k).
+(* reading into field [k] of a coherent record instance (through any chain of aliases) *)
+Lemma inst_at_ok : forall fuel c F st0 ro,
+  faithful false c -> coherent false st0 ro ->
+  forall st k, extends st0 st ->
+  inst_rel st (inst_at fuel c F st0 ro st k) (sinst_at fuel F (abs st0 ro) k).
 Proof.
-  intros c F st ro k Hc Hco. pose proof Hco as (r & Hr & Hnd & Hok).
-  unfold inst, sinst. rewrite Hr. unfold abs at 1. rewrite Hr, slookup_abs_rec.
+  induction fuel as [|n IH]; intros c F st0 ro Hc Hco st k Hext; cbn [inst_at sinst_at]; [exact I|].
+  pose proof Hco as (r & Hr & Hnd & Hok). rewrite Hr.
+  rewrite <- (override_refines false st0 ro Hco F k).
+  unfold abs at 1. rewrite Hr, slookup_abs_rec.
   destruct (ilookup k r) as [f|] eqn:El; cbn [option_map]; [|exact I].
+  destruct (ifield F st0 ro k); try exact I.
   cbn [abs_fld sval]. destruct (ival f) as [tid|] eqn:Ev; cbn [option_map]; [|exact I].
   destruct (fld_ok_val false _ _ _ _ _ (Hok k f (ilookup_In _ _ _ El)) Ev) as (th & Hth & Htok).
   unfold abs_tid. rewrite Hth.
+  assert (Hal : forall st' x, extends st0 st' -> inst_rel st' (inst_at n c F st0 ro st' x) (sinst_at n F (abs st0 ro) x)).
+  { intros st' x He. apply IH; assumption. }
   destruct th as [b|o [d|] [c0|]]; cbn [thunk_ok] in Htok; try contradiction; cbn [abs_thunk].
-  - apply (inst_body_ok c F st ro Hc Hco b [] st (extends_refl st) (proj1 Htok)).
-  - destruct Htok as (_ & -> & Hwf & _). apply (inst_body_ok c F st ro Hc Hco o d st (extends_refl st) Hwf).
+  - apply (inst_body_ok c F st0 ro _ _ Hc Hco Hal b [] st Hext (proj1 Htok)).
+  - destruct Htok as (_ & -> & Hwf & _). apply (inst_body_ok c F st0 ro _ _ Hc Hco Hal o d st Hext Hwf).
   - destruct Htok as (Hu & _). discriminate.
 Qed.
+
+Theorem inst_ok : forall c F st ro k,
+  faithful false c -> coherent false st ro ->
+  inst_rel st (inst c F st ro k) (sinst F (abs st ro) k).
+Proof. intros c F st ro k Hc Hco. apply inst_at_ok; [exact Hc | exact Hco | apply extends_refl]. Qed.
 
 (* ------------------------------------------------------------------------- histories
    the property's sentence for a nested field: after the whole history, field [p] of the record that
@@ -156,13 +212,8 @@ Proof.
   destruct Hi as [Hco Hsim]. split.
   - rewrite (override_refines false st r Hco). apply sfield_sim. exact Hsim.
   - pose proof (inst_ok c F st r k Hc Hco) as Hin.
-    assert (HS : sinst F (abs st r) k = sinst F R k).
-    { unfold sinst. pose proof (Hsim k) as Hk.
-      destruct (slookup k (abs st r)) as [f|]; destruct (slookup k R) as [f'|]; cbn [opt_sim] in Hk; try contradiction; [|reflexivity].
-      destruct Hk as (_ & Hv & _). destruct (sval f) as [b|]; destruct (sval f') as [b'|]; cbn [osb_sim] in Hv; try contradiction; [|reflexivity].
-      apply sinst_body_sim; [exact Hv|]. intros x. apply sfield_sim. exact Hsim. }
-    rewrite HS in Hin.
-    destruct (inst c F st r k) as [[st' ri]|]; destruct (sinst F R k) as [Ri|]; cbn [inst_rel] in Hin; try contradiction; [|exact I].
+    unfold sinst in *. rewrite (sinst_at_sim F F (abs st r) R k Hsim) in Hin.
+    destruct (inst c F st r k) as [[st' ri]|]; destruct (sinst_at F F R k) as [Ri|]; cbn [inst_rel] in Hin; try contradiction; [|exact I].
     destruct Hin as (_ & Hco' & Hsim'). intros fuel p.
     rewrite (override_refines false st' ri Hco'). apply sfield_sim. exact Hsim'.
 Qed.
